@@ -116,7 +116,7 @@ def run(chk):
         "five bit positions of 127.0.0.0/8 (prefix lengths /8../32); IPv6 entries only as nets that never contain an IPv4 peer",
         "TCP, HTTP/1.1 framing and hyper's connection handling are observed, not modelled bit by bit: a request is one item, the "
         "server's reaction to client faults on the SAME connection is left open (answer or close), only other/later connections are constrained",
-        "a later client is served = it gets its response within 12 s; the accept loop and the connection tasks are not instrumented",
+        "a later client is served = it gets its response within 15 s; the accept loop and the connection tasks are not instrumented",
         "the rendering is current = strict exposition parse (harness/src/promparse.rs) and the monotone counter shown lies between the "
         "increments completed before the request was sent and those started when the response had arrived",
         "resource exhaustion (unbounded number of stalled connections) is out of scope",
